@@ -1076,10 +1076,10 @@ func c17GenB64Case(t *rapid.T) c17B64Case {
 
 func init() {
 	rule := "non-trivial = the string was produced from the grammar (a valid identifier), or differs from a valid identifier by one edit (one part dropped/emptied/replaced, one byte deleted/inserted/substituted, port moved across 65535), or sits on a length boundary (254/255/256, 42/43/44); arbitrary byte strings are judged but not counted. base64: a non-empty byte value, or a canonical unpadded text. distinct = distinct Case JSON."
-	vfRapid("C17/servername", rule, 6000, 300000, 8, c17GenServerCase, c17CheckID)
-	vfRapid("C17/userid", rule, 7000, 350000, 8, c17GenUserCase, c17CheckID)
-	vfRapid("C17/roomid", rule, 7000, 350000, 8, c17GenRoomCase, c17CheckID)
-	vfRapid("C17/base64", rule, 3000, 150000, 8, c17GenB64Case, c17CheckB64)
+	vfRapid("C17/servername", rule, 15000, 350000, 8, c17GenServerCase, c17CheckID)
+	vfRapid("C17/userid", rule, 15000, 350000, 8, c17GenUserCase, c17CheckID)
+	vfRapid("C17/roomid", rule, 15000, 350000, 8, c17GenRoomCase, c17CheckID)
+	vfRapid("C17/base64", rule, 8000, 200000, 8, c17GenB64Case, c17CheckB64)
 }
 
 // FuzzVF_C17_ids is the coverage-guided byte-level target for all four grammars (thorough tier):
